@@ -3,6 +3,7 @@ open RV.C06
 #print axioms quad_roundtrip
 #print axioms cg_roundtrip
 #print axioms each_triple_one_block
+#print axioms list_cells_stay_in_block
 #print axioms empty_default_ok
 #print axioms shared_bnode_preserved
 #print axioms patch_apply_diff
